@@ -30,14 +30,16 @@ CONTRACTS.update({
  'Attribute.units.setter': dict(
     props=[], axiom=True, kind='set', target='Attribute.units', params={'units': 'opq:uval'}, returns='none', modifies=['self._units'],
     self_fields={'_units': 'opq:stored'},
-    raises={'AnyException': 'rejects_units(self, units)'}, ensures=['self._units == units']),
+    # what is stored is what the unit checker returns for the given units (the text of a Unit member, else the value itself): the
+    # verified setter proves _units == checker(units); unit_text names that result
+    raises={'AnyException': 'rejects_units(self, units)'}, ensures=['self._units == unit_text(units)']),
 })
 ROUTES = {
     'plain-value': ("{'first': 'opq:uval'}", ["self.first._value == converted(self.first, kwargs['first'])", 'self.first._units is old(self.first._units)']),
     'attrsetup-value-and-units': ({'first': {'cls': 'AttrSetup', 'fields': {'value': 'opq:uval', 'units': 'opq:uval'}}},
-                                  ["self.first._value == converted(self.first, kwargs['first'].value)", "self.first._units == kwargs['first'].units"]),
+                                  ["self.first._value == converted(self.first, kwargs['first'].value)", "self.first._units == unit_text(kwargs['first'].units)"]),
     'dict-value-and-units': ({'first': 'dict{value:opq:uval,units:opq:uval}'},
-                             ["self.first._value == converted(self.first, kwargs['first']['value'])", "self.first._units == kwargs['first']['units']"]),
+                             ["self.first._value == converted(self.first, kwargs['first']['value'])", "self.first._units == unit_text(kwargs['first']['units'])"]),
     'two-attributes': ({'second': 'opq:uval', 'first': 'opq:uval'},
                        ["self.first._value == converted(self.first, kwargs['first'])", "self.second._value == converted(self.second, kwargs['second'])"]),
 }
@@ -56,6 +58,7 @@ CONTRACTS['EFLRItem.set_attributes[unknown-name]'] = dict(
     self_fields={'name': 'str', 'first': A2}, params={'kwargs': {'no_such_attribute': 'opq:uval'}}, returns='none',
     raises={'AttributeError': 'True'}, ensures=[])
 OPQ_MODELS['stored'] = {'__isinstance__': {}}
+OPQ_MODELS['npfloat'] = {'__isinstance__': {'Number': True, 'numbers.Number': True, 'float': False, 'int': False}, 'is_integer': 'method:bool'}
 OPQ_MODELS['scalar'] = {'__isinstance__': {}, '__notnone__': True}
 
 CONTRACTS['Attribute.representation_code'] = dict(
@@ -111,6 +114,22 @@ CONTRACTS.update({
     ensures=[('yes-words-are-1-no-words-are-0', f'result == (1 if value.lower() in {YES} else 0)')]),
  'NumericAttribute._int_parser[int]': dict(
     target='NumericAttribute._int_parser', props=['C05'], params={'value': 'int'}, returns='int', ensures=[('integers-exactly', 'result == value')]),
+ # C06 / C12: a fractional number is rejected for an integer code, whatever kind of number it is (python float, numpy scalar,
+ # Decimal ...): never truncated.  `npfloat` is a number that is not an instance of the builtin float.
+ 'NumericAttribute._int_parser[float]': dict(
+    target='NumericAttribute._int_parser', props=['C05', 'C06', 'C12'], params={'value': 'opq:float'}, returns='int',
+    raises={'ValueError': 'not float(value).is_integer()'}, ensures=[('the-integer-it-denotes', 'result == int(value)')]),
+ 'NumericAttribute._int_parser[other-number]': dict(
+    target='NumericAttribute._int_parser', props=['C05', 'C06', 'C12'], params={'value': 'opq:npfloat'}, returns='int',
+    raises={'ValueError': 'not float(value).is_integer()'}, ensures=[('the-integer-it-denotes', 'result == int(value)')]),
+ # C05 "date-times ... as the same UTC instant": a datetime object given by the user is stored AS IT IS (aware or naive) - the one and
+ # only conversion to UTC happens in write_struct_dtime (C06)
+ 'DTimeAttribute._convert_value[datetime]': dict(
+    target='DTimeAttribute._convert_value', props=['C05', 'C06'], self_fields={'_allow_float': 'bool'}, params={'value': 'opq:datetime'},
+    returns='opq:datetime', ensures=[('the-datetime-object-itself-is-stored', 'result is value')]),
+ 'DTimeAttribute._convert_value[number]': dict(
+    target='DTimeAttribute._convert_value', props=['C05', 'C12'], self_fields={'_allow_float': 'bool'}, params={'value': 'int'},
+    returns='opq:float', raises={'TypeError': 'not self._allow_float'}, ensures=[('a-number-of-seconds-is-kept-as-that-float', 'result == float(value)')]),
  'NumericAttribute._float_parser[int]': dict(
     target='NumericAttribute._float_parser', props=['C05'], params={'value': 'int'}, returns='opq:float', ensures=[('the-float-of-the-number', 'result == float(value)')]),
  'TextAttribute._check_string': dict(
